@@ -167,7 +167,7 @@ class Check:
         self.cov["tlc_runs"].append({"module": res["module"], "cfg": res["cfg"], "distinct": res["distinct"],
                                      "generated": res["generated"], "depth": res["depth"], "wall_s": res["wall_s"], "note": note})
 
-    def add_vh(self, rep, eval_key="evaluations", distinct_key=None, traces_key=None):
+    def add_vh(self, rep, eval_key="evaluations", distinct_key=None, traces_key=None, panics_only=False):
         self.cov["evaluations"] += rep["stats"].get(eval_key, 0)
         if distinct_key:
             self.cov["distinct_nontrivial"] += rep["stats"].get(distinct_key, 0)
@@ -179,6 +179,11 @@ class Check:
                 self.cov["samples"].append(s)
         self.cov["harness_runs"].append({"args": rep["args"], "stats": rep["stats"], "wall_s": rep["wall_s"]})
         for v in rep["viols"]:
+            # C10 re-uses the other specifications' neighbourhoods: there only panics count, under a C10 key
+            if panics_only:
+                if "/panic/" in v["key"]:
+                    self.violation("C10/panic-in-replay/" + v["key"], v.get("case"), v.get("detail"), 1)
+                continue
             # a replay shared between properties reports each finding under the property it belongs to
             if not v["key"].startswith(self.pid + "/"):
                 continue
